@@ -7,7 +7,29 @@ import time
 from . import core
 
 
+def _ensure_reference_interpreter():
+    """The reference oracle is CPython 3.11. If `python3` resolves to another version (e.g. a conda base environment
+    first on PATH), re-exec under a 3.11 interpreter when one is installed; otherwise the check reports inconclusive."""
+    if sys.version_info[:2] == (3, 11) or os.environ.get("MON_REEXEC"):
+        return
+    import glob
+    import shutil
+    cands = [shutil.which("python3.11"), "/usr/bin/python3.11", "/usr/bin/python3"] + sorted(glob.glob("/root/.pyenv/versions/3.11.*/bin/python3"), reverse=True)
+    for c in cands:
+        if not c or not os.path.exists(c):
+            continue
+        try:
+            import subprocess
+            v = subprocess.run([c, "-c", "import sys;print(sys.version_info[:2])"], capture_output=True, text=True, timeout=20).stdout.strip()
+        except Exception:
+            continue
+        if v == "(3, 11)":
+            env = dict(os.environ, MON_REEXEC="1")
+            os.execve(c, [c, "-m", "mon"] + sys.argv[1:], env)
+
+
 def main(argv):
+    _ensure_reference_interpreter()
     if not argv:
         print(__doc__)
         return 2
